@@ -32,7 +32,8 @@ Admissible local `n = e` (statement D at position i of block B):
 Assumption (stated in DESIGN.md): a call-free right-hand side (attribute/subscript chain) denotes the same value at D and at
 the reads unless one of the mutations above is visible in the function; evaluation order inside one statement is not tracked.
 `L = [comprehension]` directly followed by `L.sort()` is read as `L = sorted(generator)`; an accumulation loop directly after the
-initialisation of its accumulator (`D = {}; for ..: D[k] = v`, `L = []; for ..: L.append(v)`, `n = 0; for ..: n += v`) is read as the comprehension.
+initialisation of its accumulator (`D = {}; for ..: D[k] = v`, `L = []; for ..: L.append(v)`, `n = 0; for ..: n += v`) is read as the comprehension, and a search loop
+(`for t in i: if c: return True` followed by `return False`) as `return any(c for t in i)` (dually all()).
 A complete if/elif/else chain whose branches each consist of one assignment to the same otherwise unbound name is
 first rewritten into one assignment of a conditional expression; `a, b = x, y` with disjoint names is split.
 
@@ -384,10 +385,37 @@ def _loops_to_comprehensions(fn):
             i -= 1
 
 
+def _search_loops_to_quantifiers(fn):
+    '''`for T in I: if C: return True` directly followed by `return False` is `return any(C for T in I)`; with False/True and a negated test it is all().'''
+    for b in _blocks(fn):
+        i = 0
+        while i + 1 < len(b):
+            lp, ret = b[i], b[i + 1]
+            i += 1
+            if not (isinstance(lp, ast.For) and not lp.orelse and len(lp.body) == 1 and isinstance(lp.body[0], ast.If) and not lp.body[0].orelse and len(lp.body[0].body) == 1
+                    and isinstance(lp.body[0].body[0], ast.Return) and isinstance(ret, ast.Return)):
+                continue
+            inner, outer = lp.body[0].body[0].value, ret.value
+            if not (isinstance(inner, ast.Constant) and isinstance(outer, ast.Constant) and isinstance(inner.value, bool) and isinstance(outer.value, bool) and inner.value != outer.value):
+                continue
+            cond = lp.body[0].test
+            gen = ast.comprehension(target=lp.target, iter=lp.iter, ifs=[], is_async=0)
+            if inner.value:     # found one -> True
+                call = ast.Call(func=ast.Name(id='any', ctx=ast.Load()), args=[ast.GeneratorExp(elt=cond, generators=[gen])], keywords=[])
+            else:               # found a counterexample -> False
+                neg = cond.operand if isinstance(cond, ast.UnaryOp) and isinstance(cond.op, ast.Not) else ast.UnaryOp(op=ast.Not(), operand=cond)
+                call = ast.Call(func=ast.Name(id='all', ctx=ast.Load()), args=[ast.GeneratorExp(elt=neg, generators=[gen])], keywords=[])
+            new = ast.Return(value=call)
+            ast.copy_location(new, lp)
+            ast.fix_missing_locations(new)
+            b[i - 1:i + 1] = [new]
+
+
 def _inline_function(fn, flags):
     '''One fixpoint of alias substitution in the own scope of fn.  flags: subset of {'vocab', 'proj', 'once', 'all'}.'''
     _split_tuple_assignments(fn)
     _loops_to_comprehensions(fn)
+    _search_loops_to_quantifiers(fn)
     _list_then_sort(fn)
     while _collapse_conditional_definitions(fn):
         pass
